@@ -32,6 +32,8 @@ type Profile struct {
 	DbStat      bool
 	NoSnapshot  bool
 	JournalMode []string
+	WALTrip     bool // histories may take the file through WAL mode and back
+	CounterWrap bool // histories may put the file change counter just below its wrap-around
 	CacheSize   int // writer cache_size pragma (pages); 0 = default
 }
 
@@ -57,6 +59,7 @@ type World struct {
 	AutoVac int
 	JMode   string
 	InTx    bool
+	InWAL   bool // the file is in WAL mode right now (a rollback-journal reader must refuse it)
 	Commits int
 	// OnCommit is called after every refresh of the reference snapshot.
 	OnCommit func()
@@ -198,6 +201,20 @@ func (w *World) Refresh() {
 	if w.OnCommit != nil {
 		w.OnCommit()
 	}
+}
+
+func (w *World) journalModeIs(mode string) bool {
+	v, _, err := w.W.Query(w.Conn, "PRAGMA journal_mode")
+	if err != nil || len(v) != 1 {
+		return false
+	}
+	switch x := v[0][0].(type) {
+	case string:
+		return fold.Lower(x) == mode
+	case []byte:
+		return fold.Lower(string(x)) == mode
+	}
+	return false
 }
 
 func (w *World) newName(prefix string) string {
@@ -535,7 +552,13 @@ func (w *World) Step() {
 		return
 	}
 	t := tabs[s.Draw(len(tabs), "table")]
-	weights := []int{10, 6, 6, 0, 0, 0, 0, 0, 0, 0, 0, 0, 0, 0, 0, 0}
+	weights := []int{10, 6, 6, 0, 0, 0, 0, 0, 0, 0, 0, 0, 0, 0, 0, 0, 0, 0}
+	if w.Prof.WALTrip {
+		weights[16] = 1
+	}
+	if w.Prof.CounterWrap {
+		weights[17] = 1
+	}
 	if w.Prof.DDL {
 		weights[3], weights[4], weights[5], weights[6], weights[7], weights[8], weights[11], weights[12] = 2, 1, 3, 1, 4, 1, 1, 1
 		weights[13], weights[14] = 1, 1
@@ -659,6 +682,45 @@ func (w *World) Step() {
 		}
 		w.Commit()
 		w.C.Probe("view-or-trigger-in-schema")
+	case 16: // the file goes through WAL mode and back: commits made meanwhile are invisible to (and refused by) a rollback-journal reader
+		w.W.CloseConn(w.OConn) // nobody else may have the file open when WAL mode is left again
+		w.Exec("PRAGMA journal_mode=WAL")
+		w.InWAL = w.journalModeIs("wal")
+		if w.InWAL {
+			w.C.Probe("wal-phase")
+		}
+		if err := w.W.Open(w.OConn, w.Path); err != nil {
+			w.C.Troublef("reopen oracle: %v", err)
+		}
+		w.Begin()
+		w.InsertRows(t.Name, 1+s.Draw(10, "nwal"))
+		w.Commit() // OnCommit runs with InWAL set
+		w.W.CloseConn(w.OConn)
+		w.Exec("PRAGMA journal_mode=" + w.JMode)
+		w.InWAL = w.journalModeIs("wal")
+		if err := w.W.Open(w.OConn, w.Path); err != nil {
+			w.C.Troublef("reopen oracle: %v", err)
+		}
+		w.Refresh()
+	case 17: // the 32-bit change counter is put just below its wrap-around; the next commits take it through zero
+		if !w.InWAL {
+			if b, err := os.ReadFile(w.Path); err == nil && len(b) >= 100 {
+				f, err := os.OpenFile(w.Path, os.O_WRONLY, 0)
+				if err == nil {
+					v := []byte{0xff, 0xff, 0xff, 0xfe}
+					f.WriteAt(v, 24) // file change counter
+					f.WriteAt(v, 92) // version-valid-for (so that the in-header size stays valid)
+					f.Close()
+					w.C.Probe("change-counter-near-wrap")
+					w.C.Log.Add("W", "patch", "change counter := 0xfffffffe")
+					w.C.Note("-- file change counter (offsets 24, 92) := 0xfffffffe")
+				}
+			}
+			w.Refresh()
+			w.Begin()
+			w.InsertRows(t.Name, 1+s.Draw(5, "nwrap"))
+			w.Commit()
+		}
 	case 15: // VACUUM into another page size: the whole file is rebuilt under open handles
 		np := w.Prof.PageSizes[s.Draw(len(w.Prof.PageSizes), "newpagesize")]
 		w.Exec(fmt.Sprintf("PRAGMA page_size=%d", np))
